@@ -120,6 +120,12 @@ def run(prog, R):
              f"return={show(ret)} stores={[(s[0], show(s[1])) for s in stores]} clone-before-store={ok_order}")
     else:
         R.ob("C19.1-post_increment", "returns-old-adds-one", False, pinc.at, f"{len(ps)} paths")
+    # the state of the table is exactly the scope stack, the symbol store and the id counter: the stack-of-maps argument
+    # (a look-up depends only on the open scopes) does not cover any further state such as a cache of earlier answers
+    extra = sorted(set(fields) - {"symbol_id_counter", "all_symbols", "scope_symbol_table_stack"})
+    missing = sorted({"symbol_id_counter", "all_symbols", "scope_symbol_table_stack"} - set(fields))
+    R.ob("C19.0-state-fields", "SymbolTable state = {scope stack, symbol store, id counter}", not extra and not missing, new.at,
+         f"fields {fields}" if not extra and not missing else f"SymbolTable has additional state {extra} (missing {missing}): answers of lookup / new_binding may now depend on the history of calls, not only on the open scopes (e.g. a memo that survives exit_scope)")
     # new(): store starts empty and counter at SymbolId::new() (== 0)
     se = SymExec(prog, new, max_visits=2)
     agg = None
@@ -132,7 +138,9 @@ def run(prog, R):
         for i, fname in enumerate(fields):
             o = origins(prog, new, agg[1]["rv"]["fields"][i], _defs=d)
             calls = {x[1] for x in o if x[0] == "call"}
-            want = {"all_symbols": {"std::vec::Vec::new", "alloc::vec::Vec::new"}, "scope_symbol_table_stack": {"std::vec::Vec::new", "alloc::vec::Vec::new"}, "symbol_id_counter": {M + "SymbolId::new"}}[fname]
+            want = {"all_symbols": {"std::vec::Vec::new", "alloc::vec::Vec::new"}, "scope_symbol_table_stack": {"std::vec::Vec::new", "alloc::vec::Vec::new"}, "symbol_id_counter": {M + "SymbolId::new"}}.get(fname)
+            if want is None:
+                continue        # an additional field: reported by C19.0-state-fields
             okf.append(bool(calls) and calls <= want)
         R.ob("C19.1-initial-state", "SymbolTable::new aggregate", all(okf), agg[1]["at"], f"field initialisers ok={okf} (Vec::new, Vec::new, SymbolId::new)")
     else:
